@@ -131,6 +131,17 @@ CHECKS = {
         "sums / elapsed times / running means computed from the event list.",
         "float tolerance 1e-5; views beyond the range recorded since the last clear are not constrained; dt changes only at duration 0",
     ),
+    "C06": (
+        "model_checking", "DESIGN.md §3 C06",
+        "exhaustive enumeration of per-synapse delay assignments x clear positions x all boolean input histories (as batch), differential "
+        "against an identically parameterised undelayed connection whose synapse history is shifted per synapse",
+        "For dense/direct/lateral/conv x delta/delta-plus/single-exp/double-exp x dt {1,1.3} x max delay {dt,2dt}: every delay assignment over "
+        "{0..max} steps (half-steps too in the fractional shards), every position of clear(), every boolean history of length 3 (quick) / 5 "
+        "(thorough); the delayed output, syncurrent and synspike must equal the undelayed synapse's history shifted by each synapse's delay "
+        "(interpolated by the synapse's rule off-grid, rest before the start / last clear), and all-zero delays must equal the connection "
+        "without delays bitwise.",
+        "tiny connections (2->2, 2, conv 1x3 kernel (1,2)); histories ride the batch dimension; float tolerance 1e-5",
+    ),
 }
 
 PENDING_REASON = "check not built yet in this session (claimed in DESIGN.md; will move to checks when its exploration exists)"
